@@ -50,6 +50,9 @@ VEC_CONFIGS = [
     ('sv_250_i32_u8_std', vec(250, 'i32', 'u8', 'std')),
     ('sv_2_tc16a16_u32_amc', vec(2, 'tc16a16', 'u32', 'amc')),
     ('sv_6_tr_u16_amc', vec(6, 'tr', 'u16', 'amc')),
+    ('vec_0_ntr_u32_re', vec(0, 'ntr', 'u32', 're')),
+    ('sv_3_ntr_u16_re', vec(3, 'ntr', 'u16', 're')),
+    ('sv_2_mo_u32_re', vec(2, 'mo', 'u32', 're')),
     ('fcv_1_ntr', fcv(1, 'ntr')),
     ('fcv_1_i32', fcv(1, 'i32')),
     ('fcv_6_tr', fcv(6, 'tr')),
